@@ -23,7 +23,8 @@ rl.on('line', (line) => {
   if (!line.trim()) return;
   const c = JSON.parse(line);
   const out = [];
-  const sandbox = { print: (...a) => { for (const v of a) out.push(render(v, 0)); } };
+  const print = (...a) => { for (const v of a) out.push(render(v, 0)); };
+  const sandbox = { print, console: { log: print } };
   const ctx = vm.createContext(sandbox);
   let end = 'normal';
   try {
